@@ -28,6 +28,24 @@ theorem C17_rename_injective (σ : Addr → Addr) (hinj : Function.Injective σ)
     print h' o fuel route (σ root) fmt = print h o fuel route root fmt :=
   dispatch_iso (R := fun _ => True) ⟨fun a _ => hom a, fun _ _ _ _ => trivial, fun _ _ _ _ e => hinj e⟩ o fuel route.entry root _ trivial
 
+/-- **Two builds of one structure print alike.**  If two heaps (two Lexicons, two runs, two allocation orders) each hold a copy
+    of the same abstract graph `h` — at addresses given by two *different* injective placements `σ₁`, `σ₂` — then offering the
+    two copies of any root gives the same result, byte for byte, whatever else either heap holds. -/
+theorem C17_isomorphic_graphs (σ₁ σ₂ : Addr → Addr) (h₁inj : Function.Injective σ₁) (h₂inj : Function.Injective σ₂)
+    (h h₁ h₂ : Heap) (hom₁ : ∀ a, h₁ (σ₁ a) = (h a).rename σ₁) (hom₂ : ∀ a, h₂ (σ₂ a) = (h a).rename σ₂)
+    (o : Opts) (fuel : Nat) (route : Route) (root : Addr) (fmt : Fmt) :
+    print h₁ o fuel route (σ₁ root) fmt = print h₂ o fuel route (σ₂ root) fmt :=
+  (C17_rename_injective σ₁ h₁inj h h₁ hom₁ o fuel route root fmt).trans
+    (C17_rename_injective σ₂ h₂inj h h₂ hom₂ o fuel route root fmt).symm
+
+/-- … in particular the *text* and the outcome are the same (what a client of `Printer` can observe). -/
+theorem C17_isomorphic_graphs_text (σ₁ σ₂ : Addr → Addr) (h₁inj : Function.Injective σ₁) (h₂inj : Function.Injective σ₂)
+    (h h₁ h₂ : Heap) (hom₁ : ∀ a, h₁ (σ₁ a) = (h a).rename σ₁) (hom₂ : ∀ a, h₂ (σ₂ a) = (h a).rename σ₂)
+    (o : Opts) (fuel : Nat) (route : Route) (root : Addr) (fmt : Fmt) :
+    (print h₁ o fuel route (σ₁ root) fmt).st.text = (print h₂ o fuel route (σ₂ root) fmt).st.text ∧
+    (print h₁ o fuel route (σ₁ root) fmt).status = (print h₂ o fuel route (σ₂ root) fmt).status := by
+  rw [C17_isomorphic_graphs σ₁ σ₂ h₁inj h₂inj h h₁ h₂ hom₁ hom₂ o fuel route root fmt]; exact ⟨rfl, rfl⟩
+
 /-- **Address independence, as stated in the design:** for every heap, root, route, options and every renaming `σ` of addresses
     that has a left inverse (i.e. every injective renaming), `print (σ • heap) (σ root) = print heap root`. -/
 theorem C17_rename_heap (σ τ : Addr → Addr) (hinv : ∀ a, τ (σ a) = a) (h : Heap) (o : Opts) (fuel : Nat) (route : Route)
